@@ -25,12 +25,20 @@ def run(tier, replay=None):
         nontriv = 0
         for c in res["json"]:
             exp = libproj.code_value(c["code"])
-            got = float(g.aifeyn_complexity(c["labels"], ["a0", "a1", "a2"]))
+            try:
+                got = float(g.aifeyn_complexity(c["labels"], ["a0", "a1", "a2"]))
+            except Exception as ex:
+                r.violation("aifeyn:raises:%s" % type(ex).__name__, "aifeyn_complexity(%s) raised %r" % (c["labels"], ex), c)
+                continue
             if not close(got, exp):
                 r.violation("aifeyn:%s" % " ".join(c["labels"]), "aifeyn_complexity(%s) = %.12g, model k ln n + sum ln c = %.12g (%s)" % (
                     c["labels"], got, exp, c["code"]), c)
-            with contextlib.redirect_stdout(io.StringIO()):
-                got2, k2 = fs.tree_to_aifeyn(c["labels"], VOCAB, verbose=False)
+            try:
+                with contextlib.redirect_stdout(io.StringIO()):
+                    got2, k2 = fs.tree_to_aifeyn(c["labels"], VOCAB, verbose=False)
+            except Exception as ex:
+                r.violation("tree_to_aifeyn:raises:%s" % type(ex).__name__, "tree_to_aifeyn(%s) raised %r" % (c["labels"], ex), c)
+                continue
             if not close(float(got2), exp) or k2 != len(c["labels"]):
                 pars = sorted({l for l in c["labels"] if l in ("a0", "a1", "a2")})
                 gap = pars != ["a%d" % i for i in range(len(pars))]
